@@ -302,7 +302,7 @@ CqSelect(grp, cond) ==
 
 \* which completed choices are statements of the language (constraints across slots)
 WellFormed(kind, ast) ==
-  CASE kind = "delete" -> "Sources" \in DOMAIN ast \/ "Condition" \in DOMAIN ast
+  CASE kind \in {"delete", "dropseries"} -> "Sources" \in DOMAIN ast \/ "Condition" \in DOMAIN ast
     [] kind = "createdb" -> IF "RetentionPolicyCreate" \in DOMAIN ast
                             THEN \E f \in {"RetentionPolicyDuration", "RetentionPolicyReplication", "RetentionPolicyShardGroupDuration",
                                             "FutureWriteLimit", "PastWriteLimit", "RetentionPolicyName"} : f \in DOMAIN ast
@@ -321,7 +321,7 @@ Slots(kind, sub) ==
                             {FromOf(<<S(Meas("", "", "m"), <<Id("m")>>)>>), FromOf(<<S(MeasRe("", "", "^m"), <<Re("^m")>>), S(Meas("", "rp", "n"), <<Id("rp"), PT("."), IdT("n")>>)>>), Skip},
                             {Skip, WhereOf(CondA), WhereOf(CondT)}>>
     [] kind = "dropseries" -> <<HeadOf("DropSeriesStatement", <<Kw("DROP"), Kw("SERIES")>>),
-                            {FromOf(<<S(Meas("", "", "m"), <<Id("m")>>)>>), FromOf(<<S(MeasRe("", "", "^m"), <<Re("^m")>>), S(Meas("", "", "my n"), <<QId("my n")>>)>>)},
+                            {FromOf(<<S(Meas("", "", "m"), <<Id("m")>>)>>), FromOf(<<S(MeasRe("", "", "^m"), <<Re("^m")>>), S(Meas("", "", "my n"), <<QId("my n")>>)>>), Skip},
                             WhereFew>>
     [] kind = "showseries" -> <<HeadOf("ShowSeriesStatement", <<Kw("SHOW"), Kw("SERIES")>>), OnDb, FromPlainFew, WhereFew, OrderFew>> \o LimOff
     [] kind = "seriescard" -> <<HeadOf("ShowSeriesCardinalityStatement", <<Kw("SHOW"), Kw("SERIES")>>), Exact, {O(<<>>, <<Kw("CARDINALITY")>>)}, OnDbFew, FromPlainFew, WhereFew, GroupFew>> \o LimOff
